@@ -9,12 +9,14 @@ CONSTANTS
   MaxBatch = 2
   MaxCancel = 0
   MaxDue = 1
+  MaxSlow = 0
   MaxSendFail = 0
   SendHops = 4
   SkipDoneFutures = TRUE
   GuardSetException = TRUE
   AllFieldMatchers = FALSE
   TicketBeforeRegister = TRUE
+  LiveListAtCompletion = TRUE
 INVARIANT TypeOK
 INVARIANT OnlyMatching
 INVARIANT FirstMatching
